@@ -166,7 +166,8 @@ def main():
     knobs = {"sessions": 6, "versions": ["v3"], "auths": ["md5", "sha1"], "privs": [None, "des", "aes"],
              "ops": ["get", "get_many", "getnext", "refresh"], "beh_weights": [100, 0, 0, 0], "key_types": ["password", "password", "master", "localized"]}
     sj = [{"seed": a.seed * 77 + i, "steps": 120 if a.tier == "quick" else 2000, "aspects": ["mac", "priv", "auth_flag", "priv_flag", "panic", "outcome", "deaf", "create"],
-           "knobs": dict(knobs, shared_pw=("sharedpass%d" % i) if i % 2 else None, same_octets=0.35 if i >= 4 else 0.0)} for i in range(8)]
+           "knobs": dict(knobs, shared_pw=("sharedpass%d" % i) if i % 2 else None, same_octets=0.35 if i >= 4 else 0.0,
+                          **({"share_key_objects": True, "key_types": ["password", "password", "password", "master"]} if i % 4 == 1 else {}))} for i in range(8)]
     outs = runner.run_workers("vlib.scenario", "worker", sj, variant="rel", timeout=3000)
     s = c03.collect(chk, outs, "rel", PID)
     st["session_datagrams"] = s["requests"]
